@@ -650,3 +650,469 @@ Proof.
             end).
   intros _. simpl. exact M.
 Qed.
+
+(* ---- the invariant of the stream -------------------------------------------------------------------- *)
+
+Definition inv (ch : chain) (from : N) (s : st) (out : list obs) : Prop :=
+  stream_ok ch from (s_cur s) (entries_of out) /\
+  Forall (marker_ok ch (queries_of out)) (entries_of out) /\
+  Forall (fun q => from <= fst q /\ fst q <= snd q) (queries_of out).
+
+(* a fetch from the cursor moves the cursor to c1 and delivers exactly the blocks in between *)
+Lemma head_fetch_spec : forall c ch s e s' o, 1 <= batch c -> head_fetch c ch s e s' o ->
+  s_cur s <= s_cur s' /\
+  fetched ch (s_cur s) (s_cur s') (queries_of o) (entries_of o) /\
+  Forall (fun q => s_cur s <= fst q /\ fst q <= snd q) (queries_of o) /\
+  (forall h fs, e = EHead h fs -> follow c <= h /\ s_cur s' <= h - follow c + 1 /\
+      Forall (fun q => snd q <= h - follow c) (queries_of o) /\
+      (s_mode s' = MIdle -> s_cur s' = h - follow c + 1)).
+Proof.
+  intros c ch s e s' o Hb (h & fs & qs & es & r & -> & M & Hf & Hcur & F & -> & -> & Hc & Hm1 & Hm2).
+  destruct (fetch_spec _ _ _ _ _ _ _ _ Hb Hcur F) as (cc & C1 & C2 & C3 & C4 & C5 & C6 & C7).
+  destruct (fetched_advance _ _ _ _ _ C1 C3) as (A1 & A2 & A3).
+  assert (Hq : Forall (fun q => s_cur s <= fst q /\ fst q <= snd q) qs).
+  { eapply Forall_impl; [|exact C7]. simpl. tauto. }
+  assert (Hq' : Forall (fun q => snd q <= h - follow c) qs).
+  { eapply Forall_impl; [|exact C7]. simpl. tauto. }
+  destruct r as [|kd|].
+  - rewrite Hc. rewrite (C4 eq_refl) in *.
+    split; [lia|]. split; [assumption|]. split; [assumption|].
+    intros h' fs' E. inversion E; subst.
+    split; [assumption|]. split; [lia|]. split; [assumption|]. intros _. reflexivity.
+  - rewrite Hc.
+    split; [assumption|]. split; [assumption|]. split; [assumption|].
+    intros h' fs' E. inversion E; subst.
+    split; [assumption|]. split; [lia|]. split; [assumption|].
+    intros Hm. exfalso. apply Hm2; [discriminate|assumption].
+  - congruence.
+Qed.
+
+Lemma step_inv : forall c ch from s out e s' o, 1 <= batch c ->
+  inv ch from s out -> step c ch s e = (s', o) -> inv ch from s' (out ++ o).
+Proof.
+  intros c ch from s out e s' o Hb ((I1 & I2 & I3 & I4) & I5 & I6) H.
+  unfold inv. rewrite entries_of_app, queries_of_app.
+  destruct (step_cases _ _ _ _ _ _ H) as [(E1 & E2 & E3)|HF].
+  - rewrite E1, E2, E3, !app_nil_r. repeat split; assumption.
+  - destruct (head_fetch_spec _ _ _ _ _ _ Hb HF) as (M & (F1 & F2 & F3 & F4) & Q & _).
+    rewrite Forall_forall in I3, F2.
+    repeat split.
+    + lia.
+    + apply blocks_sorted_app with (m := s_cur s); try assumption.
+      * intros x Hx. apply I3 in Hx. lia.
+      * intros x Hx. apply F2 in Hx. lia.
+    + apply Forall_forall. intros x Hx. apply in_app_iff in Hx. destruct Hx as [Hx|Hx].
+      * apply I3 in Hx. split; [lia|tauto].
+      * apply F2 in Hx. split; [lia|tauto].
+    + rewrite filter_app, I4, F3. apply covered_app; lia.
+    + apply Forall_app. split.
+      * eapply Forall_impl; [|exact I5]. intros x. apply marker_ok_mono.
+        intros q Hq. apply in_app_iff. now left.
+      * eapply Forall_impl; [|exact F4]. intros x. apply marker_ok_mono.
+        intros q Hq. apply in_app_iff. now right.
+    + apply Forall_app. split; [assumption|].
+      eapply Forall_impl; [|exact Q]. simpl. intros q Hq. lia.
+Qed.
+
+Lemma run_inv : forall c ch from, 1 <= batch c ->
+  forall evs s out s' o, inv ch from s out -> run c ch s evs = (s', o) -> inv ch from s' (out ++ o).
+Proof.
+  intros c ch from Hb. induction evs as [|e tl IH]; intros s out s' o I H; simpl in H.
+  - inversion H; subst. now rewrite app_nil_r.
+  - destruct (step c ch s e) as [s1 o1] eqn:S1.
+    destruct (run c ch s1 tl) as [s2 o2] eqn:R2. inversion H; subst.
+    rewrite app_assoc. eapply IH; [|exact R2]. eapply step_inv; eassumption.
+Qed.
+
+Lemma inv_init : forall ch from, inv ch from (init from) [].
+Proof.
+  intros ch from. unfold inv, stream_ok. simpl. repeat split; try constructor; try lia.
+  now rewrite covered_empty by lia.
+Qed.
+
+Lemma stream_inv : forall c ch from evs s out, 1 <= batch c ->
+  stream c ch from evs = (s, out) -> inv ch from s out.
+Proof.
+  intros c ch from evs s out Hb H. unfold stream in H.
+  change out with ([] ++ out). exact (run_inv c ch from Hb evs (init from) [] s out (inv_init ch from) H).
+Qed.
+
+(* ---- consequences of the invariant -------------------------------------------------------------------- *)
+
+Lemma sorted_blocks_inj : forall es e1 e2,
+  StronglySorted N.lt (map e_block es) -> In e1 es -> In e2 es -> e_block e1 = e_block e2 -> e1 = e2.
+Proof.
+  induction es as [|a t IH]; intros e1 e2 H H1 H2 E; [contradiction|].
+  simpl in H. inversion H as [|? ? Ht Ha]; subst. rewrite Forall_forall in Ha.
+  destruct H1 as [X1|H1], H2 as [X2|H2]; subst.
+  - reflexivity.
+  - assert (e_block e1 < e_block e2) by (apply Ha; now apply in_map). lia.
+  - assert (e_block e2 < e_block e1) by (apply Ha; now apply in_map). lia.
+  - now apply IH.
+Qed.
+
+Lemma ok_exactly_once : forall ch from cur es, stream_ok ch from cur es ->
+  forall b, from <= b < cur -> visible ch b <> [] ->
+  exists! e, In e es /\ e_block e = b /\ e_logs e = shown ch b.
+Proof.
+  intros ch from cur es (H1 & H2 & H3 & H4) b Hb Hv.
+  exists {| e_block := b; e_logs := shown ch b |}. split.
+  - split; [|split; reflexivity].
+    assert (Hin : In {| e_block := b; e_logs := shown ch b |} (filter nonempty es)).
+    { rewrite H4. apply covered_mem; [assumption|]. now apply has_logs_true. }
+    apply filter_In in Hin. tauto.
+  - intros e' (Hin & Hblk & _).
+    assert (Hin0 : In {| e_block := b; e_logs := shown ch b |} (filter nonempty es)).
+    { rewrite H4. apply covered_mem; [assumption|]. now apply has_logs_true. }
+    apply filter_In in Hin0. destruct Hin0 as [Hin0 _].
+    eapply sorted_blocks_inj; try eassumption. simpl. now rewrite Hblk.
+Qed.
+
+(* chains as execution nodes present them: the sort has nothing to do *)
+Lemma ss_filter : forall (A : Type) (R : A -> A -> Prop) f l,
+  StronglySorted R l -> StronglySorted R (filter f l).
+Proof.
+  induction l as [|a t IH]; intros H; simpl; [constructor|].
+  inversion H as [|? ? Ht Ha]; subst. destruct (f a); [|now apply IH].
+  constructor; [now apply IH|]. rewrite Forall_forall in *. intros x Hx.
+  apply filter_In in Hx. now apply Ha.
+Qed.
+
+Lemma logs_at_ksorted : forall b l,
+  StronglySorted N.le (map c_tx l) -> ksorted (map (mk_log b) l).
+Proof.
+  unfold ksorted. induction l as [|a t IH]; intros H; simpl; [constructor|].
+  simpl in H. inversion H as [|? ? Ht Ha]; subst. constructor; [now apply IH|].
+  rewrite Forall_forall in *. intros x Hx. apply in_map_iff in Hx. destruct Hx as (y & <- & Hy).
+  unfold key_lt. simpl. rewrite N.eqb_refl. apply N.ltb_ge. apply Ha. now apply in_map.
+Qed.
+
+Lemma shown_ordered : forall ch b, chain_ordered ch -> shown ch b = visible ch b.
+Proof.
+  intros ch b H. unfold shown. apply sort_sorted_id. unfold visible, logs_at.
+  apply ss_filter. apply logs_at_ksorted. apply H.
+Qed.
+
+(* the cursor never moves back, and never beyond what the heads allow *)
+Lemma step_cur_mono : forall c ch s e s' o, 1 <= batch c ->
+  step c ch s e = (s', o) -> s_cur s <= s_cur s'.
+Proof.
+  intros c ch s e s' o Hb H. destruct (step_cases _ _ _ _ _ _ H) as [(E1 & _)|HF]; [lia|].
+  apply (head_fetch_spec _ _ _ _ _ _ Hb HF).
+Qed.
+
+Lemma run_cur_mono : forall c ch, 1 <= batch c ->
+  forall evs s s' o, run c ch s evs = (s', o) -> s_cur s <= s_cur s'.
+Proof.
+  intros c ch Hb. induction evs as [|e tl IH]; intros s s' o H; simpl in H.
+  - inversion H; subst. lia.
+  - destruct (step c ch s e) as [s1 o1] eqn:S1.
+    destruct (run c ch s1 tl) as [s2 o2] eqn:R2. inversion H; subst.
+    apply step_cur_mono in S1; [|assumption]. apply IH in R2. lia.
+Qed.
+
+Definition reach1 (c : cfg) (e : event) : N :=
+  match e with EHead h _ => if h <? follow c then 0 else h - follow c + 1 | _ => 0 end.
+
+Lemma reach_cons : forall c e tl, reach c (e :: tl) = N.max (reach1 c e) (reach c tl).
+Proof. intros c [] tl; simpl; try reflexivity; now rewrite N.max_0_l. Qed.
+
+Lemma step_reach : forall c ch s e s' o, 1 <= batch c -> step c ch s e = (s', o) ->
+  s_cur s' <= N.max (s_cur s) (reach1 c e) /\
+  Forall (fun q => snd q < N.max (s_cur s) (reach1 c e)) (queries_of o).
+Proof.
+  intros c ch s e s' o Hb H. destruct (step_cases _ _ _ _ _ _ H) as [(E1 & _ & E3)|HF].
+  - rewrite E1, E3. split; [lia|constructor].
+  - destruct (head_fetch_spec _ _ _ _ _ _ Hb HF) as (_ & _ & _ & Hh).
+    destruct HF as (h & fs & _ & _ & _ & -> & _).
+    destruct (Hh h fs eq_refl) as (Hf & Hc & Hq & _).
+    unfold reach1. destruct (N.ltb_spec h (follow c)); [lia|]. split; [lia|].
+    eapply Forall_impl; [|exact Hq]. simpl. intros q Hq'. lia.
+Qed.
+
+Lemma run_reach : forall c ch, 1 <= batch c ->
+  forall evs s s' o, run c ch s evs = (s', o) ->
+  s_cur s' <= N.max (s_cur s) (reach c evs) /\
+  Forall (fun q => snd q < N.max (s_cur s) (reach c evs)) (queries_of o).
+Proof.
+  intros c ch Hb. induction evs as [|e tl IH]; intros s s' o H; simpl in H.
+  - inversion H; subst. split; [simpl; lia|constructor].
+  - destruct (step c ch s e) as [s1 o1] eqn:S1.
+    destruct (run c ch s1 tl) as [s2 o2] eqn:R2. inversion H; subst.
+    rewrite reach_cons. destruct (step_reach _ _ _ _ _ _ Hb S1) as [A1 A2].
+    destruct (IH _ _ _ R2) as [B1 B2]. split; [lia|].
+    rewrite queries_of_app. apply Forall_app. split.
+    + eapply Forall_impl; [|exact A2]. simpl. intros q Hq. lia.
+    + eapply Forall_impl; [|exact B2]. simpl. intros q Hq. lia.
+Qed.
+
+(* once the client is idle again after head h, everything up to h - follow is covered *)
+Lemma head_idle_covers : forall c ch s h fs s' o, 1 <= batch c ->
+  s_mode s = MIdle -> step c ch s (EHead h fs) = (s', o) -> s_mode s' = MIdle ->
+  follow c <= h -> h - follow c < s_cur s'.
+Proof.
+  intros c ch s h fs s' o Hb M H M' Hf.
+  destruct (step_cases _ _ _ _ _ _ H) as [(E1 & _)|HF].
+  - unfold step in H. rewrite M in H.
+    destruct (N.ltb_spec h (follow c)); [lia|].
+    destruct (N.ltb_spec (h - follow c) (s_cur s)); [lia|].
+    destruct (fetch c ch (s_cur s) (h - follow c) fs) as [[qs es] r] eqn:F.
+    destruct (fetch_spec _ _ _ _ _ _ _ _ Hb H1 F) as (cc & C1 & C2 & C3 & C4 & C5 & _).
+    destruct r as [|[| |]|]; inversion H; subst; simpl in *; try lia; try discriminate;
+      try congruence;
+      try (match goal with
+           | Hm : s_mode (fail_step ?a ?b) = MIdle |- _ =>
+               destruct (fail_step_mode a b) as [X|X]; rewrite X in Hm; discriminate
+           end).
+  - destruct (head_fetch_spec _ _ _ _ _ _ Hb HF) as (_ & _ & _ & Hh).
+    destruct (Hh h fs eq_refl) as (_ & _ & _ & Hidle). rewrite (Hidle M'). lia.
+Qed.
+
+(* a head without failures always ends idle *)
+Lemma head_ok_idle : forall c ch s h s' o, 1 <= batch c ->
+  s_mode s = MIdle -> step c ch s (EHead h None) = (s', o) -> s_mode s' = MIdle.
+Proof.
+  intros c ch s h s' o Hb M H. unfold step in H. rewrite M in H.
+  destruct (N.ltb_spec h (follow c)); [inversion H; subst; assumption|].
+  destruct (N.ltb_spec (h - follow c) (s_cur s)); [inversion H; subst; assumption|].
+  destruct (fetch c ch (s_cur s) (h - follow c) None) as [[qs es] r] eqn:F.
+  destruct (fetch_spec _ _ _ _ _ _ _ _ Hb H1 F) as (cc & _ & _ & _ & _ & _ & C6 & _).
+  rewrite (C6 eq_refl) in H. inversion H; subst. simpl. assumption.
+Qed.
+
+(* nothing is delivered once the stream has ended *)
+Lemma run_ended : forall c ch evs s, s_mode s = MDone \/ s_mode s = MFatal ->
+  entries_of (snd (run c ch s evs)) = [] /\ fst (run c ch s evs) = s.
+Proof.
+  intros c ch. induction evs as [|e tl IH]; intros s M; simpl; [auto|].
+  assert (S1 : step c ch s e = (s, [OIgnored])).
+  { unfold step. destruct M as [-> | ->]; destruct e; reflexivity. }
+  rewrite S1. destruct (run c ch s tl) as [s2 o2] eqn:R2.
+  destruct (IH s M) as [A B]. rewrite R2 in A, B. simpl in *. auto.
+Qed.
+
+(* ---- SyncHistory, and SyncHistory followed by SyncOngoing ------------------------------------------ *)
+
+Lemma last_block_advance : forall cur es, es <> [] -> advance cur es = last_block es + 1.
+Proof.
+  intros cur es. induction es as [|x t _] using rev_ind; intros Hne; [congruence|].
+  unfold advance, last_block. rewrite !fold_left_app. reflexivity.
+Qed.
+
+Lemma history_obs : forall c ch from bn fs o r, history c ch from bn fs = (o, r) ->
+  (o = [] /\ (r = HNothing \/ r = HErr)) \/
+  exists cur qs es fr,
+    bn = Some cur /\ follow c <= cur /\ from <= cur - follow c /\
+    fetch c ch from (cur - follow c) fs = (qs, es, fr) /\
+    entries_of o = es /\ queries_of o = qs /\
+    (forall last, r = HOk last -> fr = FOk /\ last = last_block es /\ last <> 0).
+Proof.
+  intros c ch from bn fs o r H. unfold history in H.
+  destruct bn as [cur|]; [|inversion H; subst; left; auto].
+  destruct (N.ltb_spec cur (follow c)); [inversion H; subst; left; auto|].
+  destruct (N.ltb_spec (cur - follow c) from); [inversion H; subst; left; auto|].
+  destruct (fetch c ch from (cur - follow c) fs) as [[qs es] fr] eqn:F.
+  right. exists cur, qs, es, fr.
+  assert (He : entries_of o = es /\ queries_of o = qs).
+  { inversion H; subst. rewrite !entries_of_app, !queries_of_app.
+    rewrite entries_of_queries, entries_of_entries, queries_of_queries, queries_of_entries.
+    destruct fr; simpl; rewrite ?app_nil_r; auto. }
+  destruct He as [He Hq].
+  split; [reflexivity|]. split; [lia|]. split; [lia|]. split; [exact F|].
+  split; [assumption|]. split; [assumption|].
+  intros last Hr. clear He Hq. inversion H as [[Ho Hr']]. rewrite Hr in Hr'.
+  destruct (N.eqb_spec (last_block es) 0); [discriminate|].
+  destruct (last_block es <? from); [discriminate|].
+  destruct fr; inversion Hr'; subst; auto.
+Qed.
+
+Lemma history_inv : forall c ch from bn fs o r, 1 <= batch c ->
+  history c ch from bn fs = (o, r) -> inv ch from (init (advance from (entries_of o))) o.
+Proof.
+  intros c ch from bn fs o r Hb H.
+  destruct (history_obs _ _ _ _ _ _ _ H) as [(-> & _)|(cur & qs & es & fr & -> & Hf & Hto & F & He & Hq & _)].
+  - apply inv_init.
+  - destruct (fetch_spec _ _ _ _ _ _ _ _ Hb Hto F) as (cc & C1 & C2 & C3 & _ & _ & _ & C7).
+    destruct (fetched_advance _ _ _ _ _ C1 C3) as (A1 & A2 & (F1 & F2 & F3 & F4)).
+    unfold inv, stream_ok. simpl. rewrite He, Hq. repeat split; try assumption.
+    eapply Forall_impl; [|exact C7]. simpl. tauto.
+Qed.
+
+(* a successful history covers everything up to the node's block number minus the follow distance *)
+Lemma history_ok : forall c ch from bn fs o last, 1 <= batch c ->
+  history c ch from bn fs = (o, HOk last) ->
+  exists cur, bn = Some cur /\ follow c <= cur /\
+    advance from (entries_of o) = last + 1 /\ last <= cur - follow c /\
+    covered ch from (last + 1) = covered ch from (cur - follow c + 1).
+Proof.
+  intros c ch from bn fs o last Hb H.
+  destruct (history_obs _ _ _ _ _ _ _ H) as [(_ & [X|X])|(cur & qs & es & fr & -> & Hf & Hto & F & He & Hq & Hl)];
+    try discriminate.
+  destruct (Hl last eq_refl) as (-> & -> & Hne).
+  destruct (fetch_spec _ _ _ _ _ _ _ _ Hb Hto F) as (cc & C1 & C2 & C3 & C4 & _).
+  rewrite (C4 eq_refl) in *.
+  destruct (fetched_advance _ _ _ _ _ C1 C3) as (A1 & A2 & (_ & _ & F3 & _)).
+  destruct C3 as (_ & _ & F3' & _).
+  assert (Hes : es <> []) by (intros ->; apply Hne; reflexivity).
+  pose proof (last_block_advance from es Hes) as La. rewrite La in *.
+  exists cur. rewrite He.
+  split; [reflexivity|]. split; [assumption|]. split; [exact La|]. split; [lia|].
+  now rewrite <- F3, <- F3'.
+Qed.
+
+Lemma history_nothing : forall c ch from bn fs o,
+  history c ch from bn fs = (o, HNothing) -> o = [].
+Proof.
+  intros c ch from bn fs o H. unfold history in H.
+  destruct bn as [cur|]; [|inversion H; reflexivity].
+  destruct (cur <? follow c); [inversion H; reflexivity|].
+  destruct (cur - follow c <? from); [inversion H; reflexivity|].
+  destruct (fetch c ch from (cur - follow c) fs) as [[qs es] fr].
+  inversion H. destruct (last_block es =? 0); [discriminate|].
+  destruct (last_block es <? from); [discriminate|]. destruct fr; discriminate.
+Qed.
+
+Lemma sync_inv : forall c ch from bn fs evs s out, 1 <= batch c ->
+  sync c ch from bn fs evs = (Some s, out) -> inv ch from s out.
+Proof.
+  intros c ch from bn fs evs s out Hb H. unfold sync in H.
+  destruct (history c ch from bn fs) as [o1 r] eqn:Hh.
+  pose proof (history_inv _ _ _ _ _ _ _ Hb Hh) as I.
+  destruct r as [|last|]; simpl in H.
+  - destruct (stream c ch from evs) as [s2 o2] eqn:S2. inversion H; subst.
+    rewrite (history_nothing _ _ _ _ _ _ Hh). simpl. eapply stream_inv; eassumption.
+  - destruct (stream c ch (last + 1) evs) as [s2 o2] eqn:S2. inversion H; subst.
+    destruct (history_ok _ _ _ _ _ _ _ Hb Hh) as (cur & _ & _ & Hadv & _).
+    rewrite Hadv in I. unfold stream in S2. eapply run_inv; eassumption.
+  - discriminate.
+Qed.
+
+(* ---- PackLogs on arbitrary input ---------------------------------------------------------------------- *)
+
+Lemma pack_logs_concat : forall l, flat_map e_logs (pack_logs l) = sort l.
+Proof. intros. unfold pack_logs. apply group_concat. Qed.
+
+Lemma group_blocks : forall l e, In e (group l) ->
+  e_logs e <> [] /\ forall x, In x (e_logs e) -> l_block x = e_block e.
+Proof.
+  induction l as [|x t IH]; intros e H; [contradiction|].
+  rewrite group_cons in H. destruct (group t) as [|e0 es] eqn:G.
+  - destruct H as [<-|[]]. simpl. split; [discriminate|]. intros y [<-|[]]. reflexivity.
+  - destruct (N.eqb_spec (e_block e0) (l_block x)) as [E|E].
+    + destruct H as [<-|H].
+      * simpl. split; [discriminate|]. intros y [<-|Hy]; [now rewrite E|].
+        apply (IH e0); [now left|assumption].
+      * apply IH. now right.
+    + destruct H as [<-|H].
+      * simpl. split; [discriminate|]. intros y [<-|[]]. reflexivity.
+      * apply IH. exact H.
+Qed.
+
+Lemma group_sorted_blocks : forall l, ksorted l -> StronglySorted N.lt (map e_block (group l)).
+Proof.
+  unfold ksorted. induction l as [|x t IH]; intros H; [constructor|].
+  inversion H as [|? ? Ht Hx]; subst. specialize (IH Ht).
+  rewrite group_cons. destruct (group t) as [|e0 es] eqn:G.
+  - simpl. repeat constructor.
+  - assert (Hle : forall e, In e (e0 :: es) -> l_block x <= e_block e).
+    { intros e He. rewrite <- G in He. destruct (group_blocks _ _ He) as [Hne Hb].
+      destruct (e_logs e) as [|y ys] eqn:El; [congruence|].
+      rewrite <- (Hb y) by (now left).
+      assert (Hy : In y t).
+      { rewrite <- (group_concat t). apply in_flat_map. exists e. split; [assumption|].
+        rewrite El. now left. }
+      rewrite Forall_forall in Hx. specialize (Hx y Hy). unfold key_lt in Hx.
+      destruct (N.eqb_spec (l_block y) (l_block x)); [lia|]. apply N.ltb_ge in Hx. lia. }
+    destruct (N.eqb_spec (e_block e0) (l_block x)) as [E|E].
+    + simpl in *. exact IH.
+    + simpl in *. constructor; [exact IH|].
+      inversion IH as [|? ? _ H0]; subst.
+      constructor.
+      * specialize (Hle e0 (or_introl eq_refl)). lia.
+      * rewrite Forall_forall in *. intros b Hb. specialize (H0 b Hb).
+        specialize (Hle e0 (or_introl eq_refl)). lia.
+Qed.
+
+Lemma pack_logs_spec : forall l,
+  StronglySorted N.lt (map e_block (pack_logs l)) /\
+  flat_map e_logs (pack_logs l) = sort l /\
+  Permutation l (sort l) /\
+  (forall k, filter (same_key k) (sort l) = filter (same_key k) l) /\
+  (forall e, In e (pack_logs l) ->
+     e_logs e <> [] /\ forall x, In x (e_logs e) -> l_block x = e_block e).
+Proof.
+  intros l. repeat split.
+  - apply group_sorted_blocks, sort_sorted.
+  - apply pack_logs_concat.
+  - apply sort_perm.
+  - intros k. apply sort_stable.
+  - eapply group_blocks, H.
+  - eapply group_blocks, H.
+Qed.
+
+(* ---- the statements of Props/C13.v ---------------------------------------------------------------------- *)
+
+Lemma stream_final : forall c ch from evs s out, 1 <= batch c ->
+  stream c ch from evs = (s, out) -> stream_ok ch from (s_cur s) (entries_of out).
+Proof. intros c ch from evs s out Hb H. apply (stream_inv _ _ _ _ _ _ Hb H). Qed.
+
+Lemma stream_exactly_once : forall c ch from evs s out, 1 <= batch c ->
+  stream c ch from evs = (s, out) ->
+  forall b, from <= b < s_cur s -> visible ch b <> [] ->
+  exists! e, In e (entries_of out) /\ e_block e = b /\ e_logs e = shown ch b.
+Proof.
+  intros c ch from evs s out Hb H. eapply ok_exactly_once, stream_final; eassumption.
+Qed.
+
+Lemma stream_markers : forall c ch from evs s out, 1 <= batch c ->
+  stream c ch from evs = (s, out) ->
+  Forall (marker_ok ch (queries_of out)) (entries_of out) /\
+  Forall (fun q => from <= fst q /\ fst q <= snd q) (queries_of out).
+Proof. intros c ch from evs s out Hb H. apply (stream_inv _ _ _ _ _ _ Hb H). Qed.
+
+Lemma stream_reach : forall c ch from evs s out, 1 <= batch c ->
+  stream c ch from evs = (s, out) ->
+  from <= s_cur s /\ s_cur s <= N.max from (reach c evs) /\
+  Forall (fun q => snd q < N.max from (reach c evs)) (queries_of out).
+Proof.
+  intros c ch from evs s out Hb H. unfold stream in H.
+  pose proof (run_cur_mono _ _ Hb _ _ _ _ H) as M.
+  destruct (run_reach _ _ Hb _ _ _ _ H) as [R1 R2]. simpl in *. auto.
+Qed.
+
+Lemma batching_irrelevant : forall c1 c2 ch from evs1 evs2 s1 out1 s2 out2,
+  1 <= batch c1 -> 1 <= batch c2 ->
+  stream c1 ch from evs1 = (s1, out1) -> stream c2 ch from evs2 = (s2, out2) ->
+  s_cur s1 = s_cur s2 ->
+  filter nonempty (entries_of out1) = filter nonempty (entries_of out2).
+Proof.
+  intros c1 c2 ch from evs1 evs2 s1 out1 s2 out2 H1 H2 S1 S2 E.
+  destruct (stream_final _ _ _ _ _ _ H1 S1) as (_ & _ & _ & A).
+  destruct (stream_final _ _ _ _ _ _ H2 S2) as (_ & _ & _ & B).
+  now rewrite A, B, E.
+Qed.
+
+Lemma history_final : forall c ch from bn fs o r, 1 <= batch c ->
+  history c ch from bn fs = (o, r) ->
+  stream_ok ch from (advance from (entries_of o)) (entries_of o) /\
+  Forall (marker_ok ch (queries_of o)) (entries_of o).
+Proof.
+  intros c ch from bn fs o r Hb H. destruct (history_inv _ _ _ _ _ _ _ Hb H) as (A & B & _).
+  split; assumption.
+Qed.
+
+Lemma sync_final : forall c ch from bn fs evs s out, 1 <= batch c ->
+  sync c ch from bn fs evs = (Some s, out) -> stream_ok ch from (s_cur s) (entries_of out).
+Proof. intros c ch from bn fs evs s out Hb H. apply (sync_inv _ _ _ _ _ _ _ _ Hb H). Qed.
+
+Lemma sync_exactly_once : forall c ch from bn fs evs s out, 1 <= batch c ->
+  sync c ch from bn fs evs = (Some s, out) ->
+  forall b, from <= b < s_cur s -> visible ch b <> [] ->
+  exists! e, In e (entries_of out) /\ e_block e = b /\ e_logs e = shown ch b.
+Proof.
+  intros c ch from bn fs evs s out Hb H. eapply ok_exactly_once, sync_final; eassumption.
+Qed.
+
+Lemma ended_silent : forall c ch evs s, s_mode s = MDone \/ s_mode s = MFatal ->
+  entries_of (snd (run c ch s evs)) = [].
+Proof. intros. now apply run_ended. Qed.
